@@ -89,6 +89,9 @@ type Exec struct {
 	OnLoopBack func(s *State, f *Frame, lp *Loop)
 	// OnInit is called on the initial state of a verified function.
 	OnInit func(s *State, f *Frame)
+	// FrameScope reports whether an opaque callee's body is scanned for the heap
+	// components it may modify (which are then havocked at the call).
+	FrameScope func(fn *ssa.Function) bool
 	Goexit    bool // opaque panicking calls may also end the goroutine via runtime.Goexit
 	ModelMods map[string][]string
 	iters     map[string]*iterInfo
